@@ -76,6 +76,7 @@ type FuncSpec struct {
 	Trusted  bool
 	Pure     bool
 	NoSafety bool // do not emit zero-annotation safety obligations
+	Terminates bool // every activation ends: only finite range loops or loops with a decreases clause, no recursion
 	File     string
 	Line     int
 }
@@ -133,7 +134,7 @@ var clauseKeywords = map[string]bool{
 	"props": true, "trusted": true, "pure": true, "requires": true, "ensures": true,
 	"modifies": true, "ghost": true, "use": true, "on": true, "after": true, "before": true,
 	"loop": true, "invariant": true, "hint": true, "preserved": true, "apply": true, "decreases": true, "nonnil": true, "lock": true,
-	"lockinv": true, "guarantee": true, "rely": true, "fresh": true, "exit": true, "flows": true, "assigns": true, "assumes": true, "holds": true, "allocates": true, "deadreturn": true, "bind": true, "locals": true, "nilable": true, "nosafety": true, "forbids": true, "acquires": true, "lockorder": true, "using": true,
+	"lockinv": true, "guarantee": true, "rely": true, "fresh": true, "exit": true, "flows": true, "assigns": true, "assumes": true, "holds": true, "allocates": true, "deadreturn": true, "bind": true, "locals": true, "nilable": true, "nosafety": true, "terminates": true, "forbids": true, "acquires": true, "lockorder": true, "using": true,
 }
 
 type rawClause struct {
@@ -317,6 +318,11 @@ func parseContractFile(path string, requirePrefix bool) (*ContractFile, error) {
 				return nil, errf(rc, "pure outside func")
 			}
 			curF.Pure = true
+		case "terminates":
+			if curF == nil {
+				return nil, errf(rc, "terminates outside func")
+			}
+			curF.Terminates = true
 		case "nosafety":
 			if curF == nil {
 				return nil, errf(rc, "nosafety outside func")
